@@ -106,7 +106,8 @@ def sn1d_case(S, dt, rng, ncool=25, nsolid=25):
     ks = sorted(set(rng.sample(range(ie), min(ie, ncool)) + [ie - 1])) if ie > 0 else []
     if visf:   # make sure steps inside the vacuum window are among the sampled ones
         inw = [k for k in range(ie) if ts * 3600 < t[k + 1] < (ts + td) * 3600]
-        ks = sorted(set(ks + inw[:8] + inw[-4:]))
+        aft = [k for k in range(ie) if t[k + 1] >= (ts + td) * 3600]          # first steps after the window has closed
+        ks = sorted(set(ks + inw[:8] + inw[-4:] + aft[:4]))
     for k in ks:
         cools.append("(%s, %s, %s, %s, %s)" % (flist(T[k]), fhex(sh[k + 1]), fhex(t[k + 1]), fhex(flux_at(S, T[k][-1], True)), flist(T[k + 1])))
     nucs = ["(%s, %s, %s)" % (flist(T[ie]), flist(T[ie + 1]), flist(W[ie + 1]))]
@@ -114,7 +115,8 @@ def sn1d_case(S, dt, rng, ncool=25, nsolid=25):
     js = sorted(set(rng.sample(range(ns), min(ns, nsolid)) + [0])) if ns > 0 else []
     if visf:
         inw = [j for j in range(ns) if ts * 3600 < t[ie + 2 + j] < (ts + td) * 3600]
-        js = sorted(set(js + inw[:8] + inw[-4:]))
+        aft = [j for j in range(ns) if t[ie + 2 + j] >= (ts + td) * 3600]
+        js = sorted(set(js + inw[:8] + inw[-4:] + aft[:4]))
     solids = []
     for j in js:
         a, b = ie + 1 + j, ie + 2 + j
@@ -263,7 +265,8 @@ def sn2d_case(S, dt, rng, ncool=6, nsolid=6):
     ks = sorted(set(rng.sample(range(ie), min(ie, ncool)) + [ie - 1])) if ie > 0 else []
     if visf:
         inw = [k for k in range(ie) if c["t_vac_start"] * 3600 < t[k + 1] < (c["t_vac_start"] + c["t_vac_duration"]) * 3600]
-        ks = sorted(set(ks + inw[:2] + inw[-1:]))
+        aft = [k for k in range(ie) if t[k + 1] >= (c["t_vac_start"] + c["t_vac_duration"]) * 3600]
+        ks = sorted(set(ks + inw[:2] + inw[-1:] + aft[:2]))
     cools = ["(%s, %s, %s, %s, %s)" % (glist(T0), fhex(sh[0]), fhex(0.0), flist(flux_2d(S, T0[-1])), glist(T[0]))]
     for k in ks:
         cools.append("(%s, %s, %s, %s, %s)" % (glist(T[k]), fhex(sh[k + 1]), fhex(t[k + 1]), flist(flux_2d(S, T[k][-1])), glist(T[k + 1])))
@@ -271,7 +274,8 @@ def sn2d_case(S, dt, rng, ncool=6, nsolid=6):
     js = sorted(set([0, 1] + rng.sample(range(ns), min(ns, nsolid)))) if ns > 1 else []
     if visf:
         inw = [j for j in range(ns) if c["t_vac_start"] * 3600 < t[ie + 2 + j] < (c["t_vac_start"] + c["t_vac_duration"]) * 3600]
-        js = sorted(set(js + inw[:2] + inw[-1:]))
+        aft = [j for j in range(ns) if t[ie + 2 + j] >= (c["t_vac_start"] + c["t_vac_duration"]) * 3600]
+        js = sorted(set(js + inw[:2] + inw[-1:] + aft[:2]))
     solids = []
     for j in js:
         a, b = ie + 1 + j, ie + 2 + j
